@@ -166,6 +166,74 @@ def gen_maps(rng, names):
     return locs, vd
 
 
+def edit_maps(rng, maps, names):
+    """a small edit of (locals, vdoms), the kind an administrator makes before a HUP: one entry renamed to a
+    name of the same length (first or later entry), a value changed, an entry appended, deleted, two swapped.
+    -> (locals, vdoms, label)"""
+    locs, vd = maps
+    locs = None if locs is None else list(locs)
+    items = None if vd is None else list(vd.items())
+
+    def rename(d, taken):
+        for _ in range(40):
+            i = rng.randrange(len(d)) if d else 0
+            if d and chr(d[i]).isalpha():
+                e = d[:i] + bytes([rng.choice(b"abcdefghijklmnopqrstuvwxyz")]) + d[i + 1:]
+                if lower(e) != lower(d) and lower(e) not in taken:
+                    return e
+        return None
+    ops = []
+    if locs:
+        ops += ["loc-rename-first", "loc-delete"] + (["loc-rename-later", "loc-rename-later", "loc-swap"] if len(locs) > 1 else [])
+    if locs is not None:
+        ops += ["loc-append"]
+    if items:
+        ops += ["vd-rename-first", "vd-value", "vd-delete"] + (["vd-rename-later", "vd-rename-later", "vd-value-later", "vd-swap"] if len(items) > 1 else [])
+    if items is not None:
+        ops += ["vd-append"]
+    if not ops:
+        l2, v2 = gen_maps(rng, names)
+        return l2, v2, "fresh"
+    op = rng.choice(ops)
+    if op.startswith("loc-"):
+        taken = {lower(x) for x in locs}
+        if op == "loc-rename-first" or op == "loc-rename-later":
+            k = 0 if op == "loc-rename-first" else rng.randrange(1, len(locs))
+            e = rename(locs[k], taken)
+            if e is not None:
+                locs[k] = e
+        elif op == "loc-delete":
+            del locs[rng.randrange(len(locs))]
+        elif op == "loc-swap":
+            i, j = rng.sample(range(len(locs)), 2)
+            locs[i], locs[j] = locs[j], locs[i]
+        else:
+            cand = [n for n in names if lower(n) not in taken]
+            if cand:
+                locs.append(rng.choice(cand))
+    else:
+        taken = {lower(k) for k, _ in items}
+        if op in ("vd-rename-first", "vd-rename-later"):
+            k = 0 if op == "vd-rename-first" else rng.randrange(1, len(items))
+            e = rename(items[k][0], taken)
+            if e is not None:
+                items[k] = (e, items[k][1])
+        elif op in ("vd-value", "vd-value-later"):
+            k = 0 if op == "vd-value" else rng.randrange(1, len(items))
+            same = [v for v in PREPENDS if len(v) == len(items[k][1]) and v != items[k][1]]
+            items[k] = (items[k][0], rng.choice(same) if same and rng.random() < 0.7 else rng.choice(PREPENDS))
+        elif op == "vd-delete":
+            del items[rng.randrange(len(items))]
+        elif op == "vd-swap":
+            i, j = rng.sample(range(len(items)), 2)
+            items[i], items[j] = items[j], items[i]
+        else:
+            cand = [n for n in names if lower(n) not in taken]
+            if cand:
+                items.append((rng.choice(cand), rng.choice(PREPENDS)))
+    return locs, (None if items is None else dict(items)), op
+
+
 def gen_config(rng, me=b"me.test"):
     """-> dict with the raw settings (None = file absent)"""
     names = gen_names(rng)
@@ -216,6 +284,10 @@ def gen_addresses(rng, raw, n, extra_maps=()):
     for vd in [raw["vdoms"]] + [m[1] for m in extra_maps]:
         if vd:
             vkeys += [k for k in vd if b"@" in k]
+    for m in extra_maps:                       # names that exist only in a later (HUP) stage
+        for d in list(m[0] or []) + [k.rsplit(b"@", 1)[-1].lstrip(b".") for k in (m[1] or {})]:
+            if d and d not in names:
+                names.append(d)
     doms = names + [b"other.net", b"", b"test", b"a.test.", b".a.test", b"a..test", b"fax.fax", b"xfax", b"[10.0.0.1]"]
     pcts = list(raw["percenthack"] or [])
 
@@ -261,6 +333,28 @@ def gen_addresses(rng, raw, n, extra_maps=()):
             continue
         out.append(a)
     return out
+
+
+def changed_addresses(rng, before, after):
+    """addresses aimed at what differs between two (locals, vdoms) stages: a name listed only before or only
+    after, a key whose value changed"""
+    out = []
+    l0, l1 = set(map(lower, before[0] or [])), set(map(lower, after[0] or []))
+    v0, v1 = before[1] or {}, after[1] or {}
+    k0 = {lower(k): v for k, v in v0.items()}
+    k1 = {lower(k): v for k, v in v1.items()}
+    doms = list(l0 ^ l1)
+    for k in set(k0) | set(k1):
+        if k0.get(k) != k1.get(k):
+            doms.append(k)
+    for d in doms:
+        if b"@" in d:
+            out.append(d)
+            continue
+        d = d.lstrip(b".") if d.startswith(b".") and rng.random() < 0.5 else (b"sub" + d if d.startswith(b".") else d)
+        if d:
+            out.append(rng.choice(USERS[:5]) + b"@" + d)
+    return [a for a in out if b"\0" not in a]
 
 
 def gen_verp(rng, raw, n):
